@@ -748,3 +748,52 @@ def e_r8_memo_keys(p: Project, rep: Report, thorough=False):
             rep.check("E-R8", f"{modname}:{qn}:memo-key", only_text, f"@{dn} on {qn}({', '.join(anns)}): results are shared between arguments that merely compare equal (e.g. the same instant in two time zones, 1.0 and 1.00), so the output depends on what was converted earlier" if not only_text else "", f"{p.module(modname).relpath}:{fn.lineno}")
     if n == 0:
         rep.check("E-R8", "no-memoised-converters", True, "", "")
+
+
+PROCESS_WIDE_SETTERS = {
+    # interpreter-wide state a library function must leave alone: (module, function) -> what it is
+    ("warnings", "catch_warnings"): "the warnings filter list (swapped for the whole process, not for the thread)",
+    ("warnings", "simplefilter"): "the warnings filter list",
+    ("warnings", "filterwarnings"): "the warnings filter list",
+    ("warnings", "resetwarnings"): "the warnings filter list",
+    ("decimal", "setcontext"): "the thread's decimal context",
+    ("decimal", "getcontext"): None,  # reading is fine; writes to its attributes are caught below
+    ("locale", "setlocale"): "the process locale",
+    ("os", "chdir"): "the working directory",
+    ("os", "umask"): "the process umask",
+    ("sys", "setrecursionlimit"): "the recursion limit",
+    ("socket", "setdefaulttimeout"): "the default socket timeout",
+    ("logging", "disable"): "the logging threshold of the process",
+    ("random", "seed"): "the shared random generator",
+}
+
+
+def e_r9_no_process_wide_settings(p: Project, rep: Report, thorough=False):
+    """parse / convert / serialize leave the interpreter's own switches alone"""
+    rep.rule("E-R9", "no function in scope changes a process-wide setting of the interpreter (warnings filters - `warnings.catch_warnings()` swaps the ONE filter list of the process, it is not thread-local -, decimal context, locale, default socket timeout, logging threshold ...): while one thread is inside such a block every other thread runs with the changed setting, and two overlapping blocks that end in the order they began leave it changed for good")
+    funcs = scope_functions(p, thorough)
+    n = 0
+    hits = 0
+    for modname, qn, cls, fn in funcs:
+        for c in own_nodes(fn):
+            if not isinstance(c, ast.Call):
+                continue
+            d = dotted(c.func) or ""
+            parts = d.split(".")
+            if len(parts) < 2 and isinstance(c.func, ast.Name):
+                r = p.resolve(modname, c.func.id)
+                d = getattr(r, "name", "") if isinstance(r, Ext) else ""
+                parts = d.split(".")
+            if len(parts) < 2:
+                continue
+            n += 1
+            # `import warnings as w`: the first part resolves to the external module
+            head = p.resolve(modname, parts[0])
+            mod0 = (head.name if isinstance(head, Ext) else parts[0]).split(".")[0] if len(parts) == 2 else parts[-2]
+            what = PROCESS_WIDE_SETTERS.get((mod0, parts[-1]))
+            if what:
+                hits += 1
+                rep.check("E-R9", f"{modname}:{qn}:{mod0}.{parts[-1]}", False, f"{qn} calls {d}(...), which changes {what}: results of conversions running in other threads (and, after overlapping calls, of every later one) depend on it", f"{p.module(modname).relpath}:{c.lineno}")
+    rep.unit("calls_checked_for_process_settings", n)
+    if hits == 0:
+        rep.check("E-R9", "scope:no-process-wide-setting-changed", True, f"{len(funcs)} functions", "")
